@@ -39,8 +39,9 @@ def main():
             keep = {k_: v_ for k_, v_ in old.items() if k_.startswith("verif_")}
         except Exception:
             prev = {}
-    for f in os.listdir(src):
-        shutil.copy(os.path.join(src, f), os.path.join(dst, f))
+    if os.path.isdir(src):
+        for f in os.listdir(src):
+            shutil.copy(os.path.join(src, f), os.path.join(dst, f))
     meta = json.load(open(os.path.join(dst, "meta.json")))
     meta.update(keep)
     demo = "demo.sh" if os.path.exists(os.path.join(dst, "demo.sh")) else None
